@@ -272,6 +272,28 @@ func (rr *redialRun) close() {
 	rr.fire("closed-by-harness")
 }
 
+type customDialError struct{ code int }
+
+func (e customDialError) Error() string { return fmt.Sprintf("fake dial: failed with code %d", e.code) }
+
+// dialErrorOfSomeType: real dial functions fail with errors of many concrete
+// types (net.OpError, context errors, wrapped errors, the embedder's own).
+func dialErrorOfSomeType(k int) error {
+	switch k % 6 {
+	case 0:
+		return errDial
+	case 1:
+		return &net.OpError{Op: "dial", Net: "fake", Err: errDial}
+	case 2:
+		return context.DeadlineExceeded
+	case 3:
+		return fmt.Errorf("fake dial: %w", errDial)
+	case 4:
+		return customDialError{k}
+	}
+	return &customDialError{k}
+}
+
 // dial is the dialContext function handed to NewRedialPacketConn.
 func (rr *redialRun) dial(ctx context.Context) (net.PacketConn, error) {
 	rr.mu.Lock()
@@ -297,7 +319,7 @@ func (rr *redialRun) dial(ctx context.Context) (net.PacketConn, error) {
 		atomic.StoreInt32(&rr.dialFailed, 1) // BEFORE returning the error
 		rr.event("dial %d returns error", i)
 		rr.fire("dial-failed")
-		return nil, errDial
+		return nil, dialErrorOfSomeType(i + len(rr.script.Case))
 	}
 	c := newCarrier(rr, i, cs)
 	rr.mu.Lock()
